@@ -225,7 +225,7 @@ func dedupeSorted(xs []string) []string {
 
 func r14_3(c *Ctx, r *Report) {
 	const rule = "R14.3"
-	r.rule(rule, "Writers preserve the layout the scans need. Every store to dataInUse in Fix is order-preserving: an in-place strings.Replace(old, new) of a whole record (same day key) or a removal, or an insertion at the sorted position (a slice-concatenation dataInUse[:i] + record + dataInUse[i:] whose i is found by comparing day keys); appending at the end is not.")
+	r.rule(rule, "Writers preserve the layout the scans need. Every store to dataInUse in Fix is order-preserving: an in-place strings.Replace(old, new) of a whole record (same day key) or a removal, or an insertion at the sorted position: dataInUse[:i] + record + dataInUse[i:] whose i comes out of a scan over whole records, forward from 0 while the table's day key is smaller, or backward from the end while the key before the position is greater; the scan's bound is evaluated on a table of two records (every slot 0, 1, 2 must be reachable, none outside); appending at the end is not.")
 	fn := c.Fn(r, rule, "HolidayUtil.Fix")
 	if fn == nil {
 		return
@@ -275,23 +275,193 @@ func r14_3(c *Ctx, r *Report) {
 			}
 		}
 	}
-	if n < 3 {
+	if n < 2 {
 		r.bad(rule, "instance floor R14.3", c.fnPos(fn), fmt.Sprintf("only %d stores to dataInUse found in Fix and its helpers", n))
 	}
-	// the sorted insert compares day keys
-	cmpKeys := false
+	// the sorted insert: dataInUse[:i] + record + dataInUse[i:], i found by a scan over whole records
+	sizeK, okSize := c.tabInt(r, rule, "HolidayUtil", "size")
+	construct := "HolidayUtil.Fix finds the insert position by comparing day keys"
+	var ins *ssa.BinOp
 	for _, b := range blocks {
-		for _, ins := range b.Instrs {
-			if bo, ok := ins.(*ssa.BinOp); ok && bo.Op == token.LSS {
-				if _, ok := bo.X.(*ssa.Slice); ok {
-					if _, ok := bo.Y.(*ssa.Slice); ok {
-						cmpKeys = true
-					}
+		for _, in2 := range b.Instrs {
+			if st, ok := in2.(*ssa.Store); ok && st.Addr == ssa.Value(g) {
+				if bo, ok := st.Val.(*ssa.BinOp); ok && bo.Op == token.ADD {
+					ins = bo
 				}
 			}
 		}
 	}
-	r.check(cmpKeys, rule, "HolidayUtil.Fix finds the insert position by comparing day keys", c.fnPos(fn), "record[:8] < new[:8]")
+	if ins == nil || !okSize {
+		r.bad(rule, construct, c.fnPos(fn), "no insertion dataInUse[:i] + record + dataInUse[i:] found (undecided = fail)")
+		return
+	}
+	lhs, _ := ins.X.(*ssa.BinOp)
+	tail, _ := ins.Y.(*ssa.Slice)
+	var headSl *ssa.Slice
+	if lhs != nil {
+		headSl, _ = lhs.X.(*ssa.Slice)
+	}
+	if headSl == nil || tail == nil || headSl.High == nil || tail.Low == nil || headSl.High != tail.Low || headSl.Low != nil || tail.High != nil {
+		r.bad(rule, construct, c.pos(ins.Pos()), "the insertion is not dataInUse[:i] + record + dataInUse[i:] with one position i (undecided = fail)")
+		return
+	}
+	pos, isPhi := headSl.High.(*ssa.Phi)
+	owner := ins.Parent()
+	loops, _ := findLoops(owner)
+	var li *loopInfo
+	for _, l := range loops {
+		if isPhi && pos.Block() == l.header {
+			li = l
+		}
+	}
+	if li == nil {
+		r.bad(rule, construct, c.pos(ins.Pos()), "the position is not the counter of a search loop (undecided = fail)")
+		return
+	}
+	// direction from the step; the loop conditions are evaluated for the counter at 0, size, 2*size in a table of two records
+	var step int64
+	for i, e := range pos.Edges {
+		if li.body[pos.Block().Preds[i]] {
+			if bo, ok := e.(*ssa.BinOp); ok && bo.X == ssa.Value(pos) {
+				k, _ := constInt(bo.Y)
+				if bo.Op == token.SUB {
+					k = -k
+				}
+				step = k
+			}
+		}
+	}
+	var problems []string
+	forward := step == sizeK
+	if step != sizeK && step != -sizeK {
+		problems = append(problems, fmt.Sprintf("the scan moves by %d, not by one %d-byte record", step, sizeK))
+	}
+	nBound, nCmp := 0, 0
+	for blk := range li.body {
+		iff, ok := blk.Instrs[len(blk.Instrs)-1].(*ssa.If)
+		if !ok {
+			continue
+		}
+		bo, ok := iff.Cond.(*ssa.BinOp)
+		if !ok {
+			continue
+		}
+		stays := li.body[blk.Succs[0]] && blk.Succs[0] != li.header || (blk.Succs[0] != li.header && li.body[blk.Succs[0]])
+		_ = stays
+		contTrue := li.body[blk.Succs[0]] // the loop goes on when the condition holds
+		leafAt := func(i int64) leafX {
+			return func(fr *evalFrame, v ssa.Value) (interface{}, bool) {
+				if v == ssa.Value(pos) {
+					return i, true
+				}
+				if call, ok := v.(*ssa.Call); ok {
+					if bi, ok := call.Common().Value.(*ssa.Builtin); ok && bi.Name() == "len" && isLoadOfTable(call.Common().Args[0], "HolidayUtil.dataInUse") {
+						return 2 * sizeK, true
+					}
+				}
+				return nil, false
+			}
+		}
+		if isStringType(bo.X.Type()) {
+			// key comparison: table record at the scan position against the new record's day key
+			nCmp++
+			tab, rec, op := bo.X, bo.Y, bo.Op
+			if sl, ok := tab.(*ssa.Slice); !ok || !isLoadOfTable(sl.X, "HolidayUtil.dataInUse") {
+				tab, rec, op = bo.Y, bo.X, flipOp(bo.Op)
+			}
+			if !contTrue {
+				op = negOp(op)
+			}
+			tsl, ok1 := tab.(*ssa.Slice)
+			rsl, ok2 := rec.(*ssa.Slice)
+			if !ok1 || !ok2 || !isLoadOfTable(tsl.X, "HolidayUtil.dataInUse") || tsl.Low == nil || tsl.High == nil {
+				problems = append(problems, "the comparison is not between a record of the table and the new record")
+				continue
+			}
+			if hi, ok := constInt(rsl.High); !ok || hi != 8 || (rsl.Low != nil && !isZeroConst(rsl.Low)) {
+				problems = append(problems, "the new record is not compared by its 8-character day key")
+			}
+			lo, okl := evalWith(&evalFrame{fn: owner}, tsl.Low, leafAt(sizeK))
+			hi, okh := evalWith(&evalFrame{fn: owner}, tsl.High, leafAt(sizeK))
+			wantLo := sizeK
+			if !forward {
+				wantLo = 0 // the record before the position
+			}
+			if !okl || !okh || lo != interface{}(wantLo) || hi != interface{}(wantLo+8) {
+				problems = append(problems, fmt.Sprintf("at position %d the key compared is dataInUse[%v:%v], expected [%d:%d]", sizeK, lo, hi, wantLo, wantLo+8))
+			}
+			if forward && op != token.LSS && op != token.LEQ {
+				problems = append(problems, "a forward scan must go on while the table's key is smaller than the new key")
+			}
+			if !forward && op != token.GTR && op != token.GEQ {
+				problems = append(problems, "a backward scan must go on while the key before the position is greater than the new key")
+			}
+			continue
+		}
+		if !isIntType(bo.X.Type()) {
+			continue
+		}
+		// bound: which positions may still be examined
+		nBound++
+		for _, i := range []int64{0, sizeK, 2 * sizeK} {
+			v, ok := evalWith(&evalFrame{fn: owner}, bo, leafAt(i))
+			bv, isB := v.(bool)
+			if !ok || !isB {
+				problems = append(problems, "the bound of the scan could not be evaluated")
+				break
+			}
+			goesOn := bv == contTrue
+			want := i < 2*sizeK
+			if !forward {
+				want = i > 0
+			}
+			if goesOn != want {
+				problems = append(problems, fmt.Sprintf("in a table of two records the scan %s at position %d (direction %s): a slot is never examined or the scan leaves the table", map[bool]string{true: "goes on", false: "stops"}[goesOn], i, map[bool]string{true: "forward", false: "backward"}[forward]))
+			}
+		}
+	}
+	// start position
+	startOK := false
+	for i, e := range pos.Edges {
+		if li.body[pos.Block().Preds[i]] {
+			continue
+		}
+		if forward {
+			startOK = isZeroConst(e)
+		} else if call, ok := e.(*ssa.Call); ok {
+			if bi, ok := call.Common().Value.(*ssa.Builtin); ok && bi.Name() == "len" && isLoadOfTable(call.Common().Args[0], "HolidayUtil.dataInUse") {
+				startOK = true
+			}
+		}
+	}
+	if !startOK {
+		problems = append(problems, "the scan does not start at the beginning (forward) or at the end (backward) of the table")
+	}
+	sort.Strings(problems)
+	r.check(len(problems) == 0 && nBound == 1 && nCmp == 1, rule, construct, c.pos(ins.Pos()), fmt.Sprintf("scan direction %s by %d bytes, %d bound and %d key comparison; %v", map[bool]string{true: "forward", false: "backward"}[forward], sizeK, nBound, nCmp, dedupe(problems)))
+}
+
+func isZeroConst(v ssa.Value) bool {
+	k, ok := constInt(v)
+	return ok && k == 0
+}
+
+func negOp(op token.Token) token.Token {
+	switch op {
+	case token.LSS:
+		return token.GEQ
+	case token.LEQ:
+		return token.GTR
+	case token.GTR:
+		return token.LEQ
+	case token.GEQ:
+		return token.LSS
+	case token.EQL:
+		return token.NEQ
+	case token.NEQ:
+		return token.EQL
+	}
+	return op
 }
 
 // workAtoms is one assignment of the abstract inputs of the work/pay decisions.
